@@ -540,10 +540,54 @@ def r2c(ctx):
             ctx.ok(art, f'{len(valid)} visual keys -> {sorted(got.keys())}: all keywords of the artist')
 
 
+# matplotlib keywords that override *other* keywords of the same artist when both are given (trusted): a Patch's `color`
+# sets edge and face colour and wins over edgecolor= / facecolor=
+MPL_DOMINATING = {'Patch': {'color': ('edgecolor', 'facecolor')}}
+
+
+def r2d(ctx):
+    """no stored keyword may override a keyword of another name that the caller gives: define_mpl_kwargs, partially
+    evaluated on visual dictionaries holding every subset of the colour/fill keys (both default styles), must not hand a
+    Patch the keyword `color` (matplotlib lets it win over the caller's edgecolor= / facecolor=)."""
+    import itertools
+    m = ctx.model
+    rv = m.cls('RegionVisual')
+    g = method_or_fail(ctx, rv, 'define_mpl_kwargs')
+    keys = ('color', 'edgecolor', 'facecolor', 'fill')
+    for art, dom in MPL_DOMINATING.items():
+        bad = None
+        n = 0
+        for style in ('mpl', 'ds9'):
+            for k in range(len(keys) + 1):
+                for sub in itertools.combinations(keys, k):
+                    for fillv in ((True, False) if 'fill' in sub else (None,)):
+                        n += 1
+                        data = {kk: (Const(fillv) if kk == 'fill' else Const('v_' + kk)) for kk in sub}
+                        data['default_style'] = Const(style)
+                        self_ = Obj('RegionVisual', {'__data__': DictV([data])}, 'self', rv)
+                        out = Evaluator(m).run(g, [self_, Const(art)], {})
+                        ctx.need(len(out.returns) == 1 and not out.raises and isinstance(out.returns[0][1], DictV)
+                                 and not out.returns[0][1].has_symbolic(), f'{g.qualname}({art})',
+                                 f'keyword dictionary for the visual keys {sub} ({style}) not reducible')
+                        got = out.returns[0][1]
+                        hit = [d for d in dom if d in got.keys()]
+                        if hit and bad is None:
+                            bad = (sub, fillv, style, hit[0])
+        if bad:
+            sub, fillv, style, d = bad
+            ctx.bad(art, f'dominating-keyword:{d}',
+                    f'a region whose visual holds {list(sub)}{" with fill=" + str(fillv) if fillv is not None else ""} '
+                    f'(default_style={style!r}) hands matplotlib.{art} the keyword `{d}`, which matplotlib lets win over '
+                    f'{list(dom[d])}: a caller\'s {dom[d][0]}= / {dom[d][1]}= no longer overrides the stored colour', g.loc())
+        else:
+            ctx.ok(art, f'{n} colour/fill key subsets: no stored keyword that overrides a caller keyword of another name')
+
+
 RULES = [
     RuleDef('R1', 'artist constructor arguments (8 artists)', r1, 8),
     RuleDef('R2', 'caller kwargs override the visual defaults', r2, 8),
     RuleDef('R2b', 'caller keyword vs renamed stored key (matplotlib alias table)', r2b, 3),
     RuleDef('R2c', 'every valid visual key is accepted by the artist or dropped', r2c, 3),
+    RuleDef('R2d', 'no stored keyword overrides a caller keyword of another name (Patch color vs edgecolor/facecolor)', r2d, 1),
     RuleDef('R3', 'annulus path: guard, hole orientation, roles, delegation', r3, 4),
 ]
